@@ -292,6 +292,7 @@ def main():
             flavour=flavour,
             known_findings_hit={k: len(v) for k, v in known_f.items()},
             broken=[f"{w}: {d[:300]}" for w, d in broken],
+            explanation=getattr(mod, "EXPLANATION", "see rule / trusted_base"),
             exhaustive=bool(getattr(mod, "EXHAUSTIVE", {}).get(tier, False)) if isinstance(getattr(mod, "EXHAUSTIVE", None), dict) else False,
         ),
         assumptions=mod.ASSUMPTIONS,
